@@ -401,21 +401,23 @@ Section Space.
     - inversion Hnd; subst.
       destruct (skip f v) eqn:Es.
       + rewrite (IH _ _ H3 H k). destruct (keqb k k0) eqn:E.
-        * apply keqb_spec in E. subst k0. now rewrite (notin_aget_none _ _ _ H2).
+        * apply keqb_spec in E. subst k0. rewrite (notin_aget_none _ _ _ H2), Es. reflexivity.
         * reflexivity.
       + destruct (strict && negb (is_empty v) && match Aget k0 t with Some _ => true | None => false end).
         * rewrite commit_fold_none in H. discriminate.
         * rewrite (IH _ _ H3 H k). destruct (keqb k k0) eqn:E.
-          -- apply keqb_spec in E. subst k0. rewrite (notin_aget_none _ _ _ H2).
+          -- apply keqb_spec in E. subst k0. rewrite (notin_aget_none _ _ _ H2), Es.
              now rewrite db_get_set, kref.
-          -- destruct (Aget k c) as [[[v1 n1] f1]|]; rewrite ?db_get_set, ?E; try reflexivity.
-             destruct (skip f1 v1); [now rewrite db_get_set, E|reflexivity].
+          -- destruct (Aget k c) as [[[v1 n1] f1]|]; rewrite ?db_get_set, ?E; reflexivity.
   Qed.
 
   Lemma commit_fold_total : forall c t, strict = false -> exists t', fold_left Commit1 c (Some t) = Some t'.
   Proof.
     induction c as [|[k0 [[v n] f]] c IH]; intros t Hs; simpl; [eauto|].
-    rewrite Hs. simpl. destruct (skip f v); apply IH; exact Hs.
+    destruct (skip f v); [apply IH; exact Hs|].
+    replace (strict && negb (is_empty v) && match Aget k0 t with Some _ => true | None => false end)
+      with false by (rewrite Hs; reflexivity).
+    apply IH; exact Hs.
   Qed.
 
   (* the table after the commit holds the state after the committed rounds *)
@@ -433,5 +435,310 @@ Section Space.
         rewrite Ht. symmetry. apply (skip_ok _ _ _ (firstrec_wf _ _ _ _ Hwf E) Es).
       + apply firstrec_none_walk in E2. rewrite E2 in E. discriminate.
     - apply firstrec_none_walk in E. rewrite E. apply Ht.
+  Qed.
+  (* ------------------------------------------------------------------ postCommit: reference counts *)
+  Notation Drop := (mods_drop K V keqb).
+  Notation Postm := (post_mods K V D keqb).
+
+  Lemma mods_drop_get : forall m k c v n,
+    Aget k m = Some (v, n) -> c <= n ->
+    exists m', Drop m k c = Some m' /\
+      forall k', Aget k' m' = if keqb k' k then (if n =? c then None else Some (v, n - c)) else Aget k' m.
+  Proof.
+    intros m k c v n H Hc. unfold mods_drop. rewrite H.
+    destruct (n <? c) eqn:E1; [apply Nat.ltb_lt in E1; lia|].
+    destruct (n =? c) eqn:E2.
+    - eexists. split; [reflexivity|]. intro k'. rewrite aget_adel. now destruct (keqb k' k).
+    - eexists. split; [reflexivity|]. intro k'. simpl. destruct (keqb k' k) eqn:E3; [reflexivity|].
+      now rewrite aget_adel, E3.
+  Qed.
+
+  Lemma post_mods_fold : forall (c : list (cent K V D)) m,
+    NoDup (map fst c) ->
+    (forall k v n f, Aget k c = Some (v, n, f) -> exists v' n', Aget k m = Some (v', n') /\ n <= n') ->
+    exists m', fold_left Postm c (Some m) = Some m' /\
+      forall k, Aget k m' =
+        match Aget k c with
+        | Some (_, n, _) => match Aget k m with
+                            | Some (v', n') => if n' =? n then None else Some (v', n' - n)
+                            | None => None
+                            end
+        | None => Aget k m
+        end.
+  Proof.
+    induction c as [|[k0 [[v0 n0] f0]] c IH]; intros m Hnd Hpre; simpl.
+    - eexists. split; [reflexivity|]. reflexivity.
+    - inversion Hnd; subst.
+      destruct (Hpre k0 v0 n0 f0) as [v' [n' [Hm Hle]]]; [simpl; now rewrite kref|].
+      destruct (mods_drop_get m k0 n0 v' n' Hm Hle) as [m1 [Hd Hg]]. rewrite Hd.
+      destruct (IH m1 H2) as [m' [Hf Hg']].
+      + intros k v n f Hk. assert (Hne : keqb k k0 = false).
+        { destruct (keqb k k0) eqn:E; [|reflexivity]. apply keqb_spec in E. subst.
+          rewrite (notin_aget_none _ _ _ H1) in Hk. discriminate. }
+        rewrite Hg, Hne. apply (Hpre k v n f). simpl. now rewrite Hne.
+      + exists m'. split; [exact Hf|]. intro k. rewrite Hg'. destruct (keqb k k0) eqn:E.
+        * apply keqb_spec in E. subst k0. rewrite (notin_aget_none _ _ _ H1), Hg, kref, Hm. reflexivity.
+        * rewrite Hg, E. reflexivity.
+  Qed.
+
+  Lemma mods_ok_post : forall m ds rest,
+    mods_ok m (ds ++ rest) -> all_nodup ds ->
+    exists m', fold_left Postm (Compact ds) (Some m) = Some m' /\ mods_ok m' rest.
+  Proof.
+    intros m ds rest Hm Hnd.
+    destruct (post_mods_fold (Compact ds) m (compact_nodup ds)) as [m' [Hf Hg]].
+    - intros k v n f Hk. rewrite (compact_get _ _ Hnd) in Hk.
+      destruct (firstrec ds k) as [f'|] eqn:E; [|discriminate]. inversion Hk; subst.
+      rewrite (Hm k), walk_app, cnt_app.
+      assert (Hw : Walk ds k <> None). { intro Hx. apply firstrec_none_walk in Hx. congruence. }
+      destruct (Walk rest k); [eexists; eexists; split; [reflexivity|lia]|].
+      destruct (Walk ds k); [eexists; eexists; split; [reflexivity|lia]|congruence].
+    - exists m'. split; [exact Hf|]. intro k. rewrite Hg, (compact_get _ _ Hnd), (Hm k), walk_app, cnt_app.
+      destruct (firstrec ds k) as [f'|] eqn:E.
+      + assert (Hw : Walk ds k <> None). { intro Hx. apply firstrec_none_walk in Hx. congruence. }
+        destruct (Walk rest k) as [d|] eqn:E2.
+        * assert (Hc : cnt rest k <> 0). { intro Hx. apply cnt_zero_walk in Hx. congruence. }
+          destruct (cnt ds k + cnt rest k =? cnt ds k) eqn:E3; [apply Nat.eqb_eq in E3; lia|].
+          f_equal. f_equal. lia.
+        * apply cnt_zero_walk in E2. rewrite E2. destruct (Walk ds k); [|congruence].
+          now rewrite Nat.add_0_r, Nat.eqb_refl.
+      + apply firstrec_none_walk in E. rewrite E. assert (Hc := E). apply cnt_zero_walk in Hc.
+        rewrite Hc. now destruct (Walk rest k).
+  Qed.
+  (* ------------------------------------------------------------------ LRU cache *)
+  Notation CE := (centry K V).
+  Notation Cread := (c_read K V keqb).
+  Notation Cremove := (c_remove K V keqb).
+  Notation Lwrite := (lru_write K V keqb).
+  Notation key := (ce_key K V).
+  Notation val := (ce_val K V).
+  Notation rnd := (ce_rnd K V).
+
+  Lemma cread_some : forall l k e, Cread l k = Some e -> In e l /\ key e = k.
+  Proof.
+    intros l k e H. unfold c_read in H. apply find_some in H. destruct H as [H1 H2].
+    split; [exact H1|]. apply keqb_spec in H2. now subst.
+  Qed.
+
+  Lemma cread_remove : forall l k0 k, Cread (Cremove l k0) k = if keqb k k0 then None else Cread l k.
+  Proof.
+    induction l as [|e l IH]; intros k0 k; simpl; [now destruct (keqb k k0)|].
+    destruct (keqb k0 (key e)) eqn:E1; simpl.
+    - apply keqb_spec in E1. subst k0. rewrite IH. now destruct (keqb k (key e)).
+    - destruct (keqb k (key e)) eqn:E2.
+      + apply keqb_spec in E2. subst k. rewrite (ksym (key e) k0), E1. reflexivity.
+      + apply IH.
+  Qed.
+
+  Definition winner (l : list CE) (e : CE) : CE :=
+    match Cread l (key e) with
+    | Some old => if rnd old <? rnd e then e else old
+    | None => e
+    end.
+
+  Lemma lwrite_read : forall l e k,
+    Cread (Lwrite l e) k = if keqb k (key e) then Some (winner l e) else Cread l k.
+  Proof.
+    intros l e k. unfold lru_write, winner. destruct (Cread l (key e)) as [old|] eqn:E.
+    - assert (Hk : key (if rnd old <? rnd e then e else old) = key e).
+      { destruct (rnd old <? rnd e); [reflexivity|]. now apply cread_some in E. }
+      unfold c_read at 1. simpl. fold (Cread (Cremove l (key e)) k). rewrite Hk.
+      destruct (keqb k (key e)) eqn:E2; [reflexivity|]. now rewrite cread_remove, E2.
+    - unfold c_read at 1. simpl. fold (Cread l k). destruct (keqb k (key e)); reflexivity.
+  Qed.
+
+  Lemma lwrite_in : forall l e x, In x (Lwrite l e) -> x = winner l e \/ (In x l /\ key x <> key e).
+  Proof.
+    intros l e x H. unfold lru_write, winner in *. destruct (Cread l (key e)) as [old|] eqn:E.
+    - destruct H as [H|H]; [left; now symmetry|]. right. unfold c_remove in H.
+      apply filter_In in H. destruct H as [H1 H2]. split; [exact H1|].
+      intro Hx. rewrite Hx, kref in H2. discriminate.
+    - destruct H as [H|H]; [left; now symmetry|]. right. split; [exact H|].
+      intro Hx. unfold c_read in E. apply (find_none _ _ E) in H. rewrite Hx, kref in H. discriminate.
+  Qed.
+
+  Lemma winner_cases : forall l e,
+    (winner l e = e /\ (forall old, Cread l (key e) = Some old -> rnd old < rnd e)) \/
+    (exists old, Cread l (key e) = Some old /\ winner l e = old /\ rnd e <= rnd old).
+  Proof.
+    intros l e. unfold winner. destruct (Cread l (key e)) as [old|] eqn:E.
+    - destruct (rnd old <? rnd e) eqn:E2.
+      + left. split; [reflexivity|]. intros o Ho. inversion Ho; subst. now apply Nat.ltb_lt.
+      + right. exists old. repeat split. apply Nat.ltb_ge in E2. exact E2.
+    - left. split; [reflexivity|]. intros o Ho. discriminate.
+  Qed.
+
+  Lemma winner_key : forall l e, key (winner l e) = key e.
+  Proof.
+    intros l e. destruct (winner_cases l e) as [[H _]|[old [H1 [H2 _]]]]; [now rewrite H|].
+    rewrite H2. now apply cread_some in H1.
+  Qed.
+
+  (* dl = keys whose value changed in the commit being post-processed and whose new row has
+     not been written to the cache yet ("dirty"); empty outside postCommit *)
+  Definition lru_ok (dl : list K) (R : nat) (S : K -> V) (l : list CE) : Prop :=
+    forall e, In e l ->
+      rnd e <= R /\ (In (key e) dl -> rnd e < R) /\ (~ In (key e) dl -> val e = S (key e)).
+  Definition pend_ok (dl : list K) (R : nat) (S : K -> V) (l p : list CE) : Prop :=
+    forall e, In e p ->
+      rnd e <= R /\ (In (key e) dl -> rnd e < R) /\
+      (~ In (key e) dl -> val e = S (key e) \/ exists e', Cread l (key e) = Some e' /\ rnd e < rnd e').
+  Definition nf_ok (dl : list K) (S : K -> V) (l : list CE) (ks : list K) : Prop :=
+    forall k, In k ks -> ~ In k dl -> S k = vempty \/ Cread l k <> None.
+
+  Definition CInvD (dl : list K) (R : nat) (S : K -> V) (c : cache K V) : Prop :=
+    lru_ok dl R S (c_lru K V c) /\ pend_ok dl R S (c_lru K V c) (c_pend K V c) /\
+    nf_ok dl S (c_lru K V c) (c_nf K V c ++ c_pnf K V c).
+  Definition CInv := CInvD [].
+
+  Lemma cinv_empty : forall R S, CInv R S (cache_empty K V).
+  Proof.
+    intros R S. split; [|split].
+    - intros e H. inversion H.
+    - intros e H. inversion H.
+    - intros k H. inversion H.
+  Qed.
+
+  Lemma in_dec_k : forall (k : K) (l : list K), {In k l} + {~ In k l}.
+  Proof. intros. apply in_dec. apply keqb_dec. Qed.
+
+  (* one cache write of postCommit: the key stops being dirty *)
+  Lemma cinvd_write : forall k dl R S c,
+    ~ In k dl -> CInvD (k :: dl) R S c ->
+    CInvD dl R S (cache_write K V keqb true c (mkCE K V k (S k) R)).
+  Proof.
+    intros k dl R S c Hk [Hl [Hp Hn]]. unfold cache_write, CInvD. simpl.
+    set (e := mkCE K V k (S k) R). set (l := c_lru K V c) in *.
+    assert (Hw : winner l e = e).
+    { destruct (winner_cases l e) as [[H _]|[old [H1 [H2 H3]]]]; [exact H|].
+      apply cread_some in H1. destruct H1 as [H1 H1k]. simpl in H1k.
+      destruct (Hl old H1) as [_ [Hd _]]. rewrite H1k in Hd. simpl in H3.
+      specialize (Hd (or_introl eq_refl)). lia. }
+    split; [|split].
+    - (* lru_ok *)
+      intros e0 H. destruct (lwrite_in l e e0 H) as [Hx|[Hx Hne]].
+      + rewrite Hx, Hw. simpl. split; [lia|split; [intro; contradiction|intro; reflexivity]].
+      + destruct (Hl e0 Hx) as [H1 [H2 H3]]. split; [exact H1|split].
+        * intro Hd. apply H2. now right.
+        * intro Hd. apply H3. intros [Hy|Hy]; [simpl in Hne; congruence|contradiction].
+    - (* pend_ok *)
+      intros e0 H. destruct (Hp e0 H) as [H1 [H2 H3]]. split; [exact H1|split].
+      + intro Hd. apply H2. now right.
+      + intro Hd. destruct (keqb_dec (key e0) k) as [Hy|Hy].
+        * right. exists e. rewrite lwrite_read, Hy. simpl. rewrite kref, Hw. split; [reflexivity|].
+          simpl. apply H2. now left.
+        * destruct H3 as [Hq|[e' [Hq1 Hq2]]]; [intros [Hz|Hz]; [congruence|contradiction] | now left |].
+          right. exists e'. rewrite lwrite_read. simpl. rewrite (kneq _ _ Hy). now split.
+    - (* nf_ok *)
+      intros k0 Hk0 Hd. destruct (keqb_dec k0 k) as [Hy|Hy].
+      + right. rewrite lwrite_read, Hy. simpl. rewrite kref. discriminate.
+      + destruct (Hn k0 Hk0) as [Hq|Hq]; [intros [Hz|Hz]; [congruence|contradiction] | now left |].
+        right. rewrite lwrite_read. simpl. now rewrite (kneq _ _ Hy).
+  Qed.
+
+  (* entering postCommit: the rows changed by the commit become dirty *)
+  Lemma cinvd_enter : forall dl R R' S S' c,
+    R < R' -> (forall k, ~ In k dl -> S' k = S k) ->
+    CInv R S c -> CInvD dl R' S' c.
+  Proof.
+    intros dl R R' S S' c HR HS [Hl [Hp Hn]]. split; [|split].
+    - intros e H. destruct (Hl e H) as [H1 [_ H3]]. split; [lia|split; [intros; lia|]].
+      intro Hd. rewrite (HS _ Hd). apply H3. tauto.
+    - intros e H. destruct (Hp e H) as [H1 [_ H3]]. split; [lia|split; [intros; lia|]].
+      intro Hd. rewrite (HS _ Hd). apply H3. tauto.
+    - intros k Hk Hd. rewrite (HS _ Hd). apply (Hn k Hk). tauto.
+  Qed.
+
+  (* flushPendingWrites *)
+  Lemma flush_fold : forall R S p l ks,
+    lru_ok [] R S l -> pend_ok [] R S l p -> nf_ok [] S l ks ->
+    lru_ok [] R S (fold_left Lwrite p l) /\ nf_ok [] S (fold_left Lwrite p l) ks.
+  Proof.
+    intros R S. induction p as [|e p IH]; intros l ks Hl Hp Hn; simpl; [now split|].
+    apply IH.
+    - (* lru_ok after one write *)
+      intros x Hx. destruct (lwrite_in l e x Hx) as [Hy|[Hy _]]; [|now apply Hl].
+      subst x. destruct (winner_cases l e) as [[H Hlt]|[old [H1 [H2 H3]]]].
+      + rewrite H. destruct (Hp e (or_introl eq_refl)) as [Ha [_ Hb]]. split; [exact Ha|split; [simpl; tauto|]].
+        intros _. destruct (Hb (fun x => x)) as [Hc|[e' [Hc1 Hc2]]]; [exact Hc|].
+        specialize (Hlt e' Hc1). lia.
+      + rewrite H2. apply Hl. now apply cread_some in H1.
+    - (* remaining pending entries *)
+      intros x Hx. destruct (Hp x (or_intror Hx)) as [Ha [_ Hb]]. split; [exact Ha|split; [simpl; tauto|]].
+      intros _. destruct (Hb (fun z => z)) as [Hc|[e' [Hc1 Hc2]]]; [now left|]. right.
+      rewrite lwrite_read. destruct (keqb (key x) (key e)) eqn:E.
+      + apply keqb_spec in E. rewrite E in Hc1. exists (winner l e). split; [reflexivity|].
+        destruct (winner_cases l e) as [[H Hlt]|[old [H1 [H2 H3]]]].
+        * rewrite H. specialize (Hlt e' Hc1). lia.
+        * rewrite H2. rewrite Hc1 in H1. inversion H1; subst. exact Hc2.
+      + exists e'. now split.
+    - intros k Hk Hd. destruct (Hn k Hk Hd) as [Hq|Hq]; [now left|]. right.
+      rewrite lwrite_read. destruct (keqb k (key e)); [discriminate|exact Hq].
+  Qed.
+
+  Lemma cinv_flush : forall R S c, CInv R S c -> CInv R S (cache_flush K V keqb true c).
+  Proof.
+    intros R S c [Hl [Hp Hn]]. unfold cache_flush. simpl.
+    destruct (flush_fold R S _ _ _ Hl Hp Hn) as [H1 H2].
+    split; [exact H1|]. split; [intros x Hx; inversion Hx|].
+    intros k Hk Hd. simpl in Hk. rewrite app_nil_r in Hk. apply H2; [|exact Hd].
+    rewrite in_app_iff in *. tauto.
+  Qed.
+
+  Lemma cinv_flush_prune : forall R S c n,
+    CInv R S c -> CInv R S (cache_prune K V true (cache_flush K V keqb true c) n).
+  Proof.
+    intros R S c n H. apply cinv_flush in H. destruct H as [Hl _]. unfold cache_prune. simpl in *.
+    split; [|split].
+    - intros e He. apply Hl. eapply firstn_In. exact He.
+    - intros x Hx. inversion Hx.
+    - intros x Hx. inversion Hx.
+  Qed.
+
+  Lemma cinv_wpend : forall R S c en pcap e,
+    CInv R S c -> rnd e <= R -> val e = S (key e) -> CInv R S (cache_wpend K V en pcap c e).
+  Proof.
+    intros R S c en pcap e [Hl [Hp Hn]] H1 H2. unfold cache_wpend.
+    destruct (en && (length (c_pend K V c) <? pcap)); [|split; [exact Hl|split; [exact Hp|exact Hn]]]. simpl.
+    split; [exact Hl|]. split; [|exact Hn].
+    intros x Hx. apply in_app_iff in Hx. destruct Hx as [Hx|[Hx|[]]]; [now apply Hp|]. subst x.
+    split; [exact H1|split; [simpl; tauto|]]. intros _. now left.
+  Qed.
+
+  Lemma cinv_wpnf : forall R S c en pcap k,
+    CInv R S c -> S k = vempty -> CInv R S (cache_wpnf K V en pcap c k).
+  Proof.
+    intros R S c en pcap k [Hl [Hp Hn]] H1. unfold cache_wpnf.
+    destruct (en && (length (c_pnf K V c) <? pcap)); [|split; [exact Hl|split; [exact Hp|exact Hn]]]. simpl.
+    split; [exact Hl|]. split; [exact Hp|].
+    intros x Hx Hd. rewrite app_assoc in Hx. apply in_app_iff in Hx.
+    destruct Hx as [Hx|[Hx|[]]]; [now apply Hn|]. subst x. now left.
+  Qed.
+
+  (* a disabled cache stays empty *)
+  Definition cache_dis (en : bool) (c : cache K V) : Prop := en = false -> c = cache_empty K V.
+
+  (* postCommit's cache writes, for the entries of a compact delta *)
+  Notation Postc := (post_cache K V D keqb skip).
+  Definition dirty_keys (c : list (cent K V D)) : list K :=
+    map fst (filter (fun e => negb (skip (snd (snd e)) (fst (fst (snd e))))) c).
+
+  Lemma dirty_keys_in : forall c k, In k (dirty_keys c) -> In k (map fst c).
+  Proof.
+    intros c k H. unfold dirty_keys in H. apply in_map_iff in H. destruct H as [x [H1 H2]].
+    apply filter_In in H2. apply in_map_iff. exists x. tauto.
+  Qed.
+
+  Lemma post_cache_fold : forall (c : list (cent K V D)) R S ca,
+    NoDup (map fst c) ->
+    (forall k v n f, In (k, (v, n, f)) c -> skip f v = false -> v = S k) ->
+    CInvD (dirty_keys c) R S ca ->
+    CInv R S (fold_left (Postc true R) c ca).
+  Proof.
+    induction c as [|[k [[v n] f]] c IH]; intros R S ca Hnd Hv Hc; simpl; [exact Hc|].
+    inversion Hnd; subst. apply IH; [exact H2|intros; eapply Hv; [right; eassumption|assumption]|].
+    unfold dirty_keys in Hc. simpl in Hc. destruct (skip f v) eqn:Es; simpl in Hc; [exact Hc|].
+    rewrite (Hv k v n f (or_introl eq_refl) Es). apply cinvd_write; [|exact Hc].
+    intro Hx. apply H1. now apply dirty_keys_in.
   Qed.
 End Space.
